@@ -196,7 +196,8 @@ package css
 //@ pred tokOK(tt, data, p) := (tt == DelimToken || tt == AtKeywordToken || tt == IdentToken ==> len(data) >= 1) && (tt == AtKeywordToken ==> len(data) >= 2) && len(data) <= p.l.r.pos && (cap(data) == len(data) || disjoint(data, p.l.r.buf))
 // cpInv: cursor well-formed; the state stack is never empty, its bottom is a root state and every other entry a block state
 //@ pred cpInv(p) := p != nil && p.l != nil && lexInv(p.l) && p.l.r.start == p.l.r.pos && len(p.state) >= 1 && isRootState(p.state[0]) &&
-//@      forall(i, 1, len(p.state), isBlockState(p.state[i])) && tokOK(p.tt, p.data, p) && (p.prevEnd ==> p.l.r.pos >= 1) && (p.tt == CommentToken ==> len(p.state) == 1)
+//@      forall(i, 1, len(p.state), isBlockState(p.state[i])) && tokOK(p.tt, p.data, p) && (p.prevEnd ==> p.l.r.pos >= 1) && (p.tt == CommentToken ==> len(p.state) == 1) &&
+//@      0 <= p.errPos && p.errPos <= len(p.l.r.buf)-1
 
 //@ func Parser.popToken
 //@   preserves[S] p != nil && p.l != nil && lexInv(p.l) && p.l.r.start == p.l.r.pos && p.l.r.pos >= old(p.l.r.pos)
@@ -319,6 +320,7 @@ package css
 //@   ensures[F,C08] @eof-closed: result == ErrorGrammar && p.err == "" ==> len(p.state) == 1
 //@   loop * decreases 2*(len(p.l.r.buf) - p.l.r.pos) + ite(first, 1, 0)
 //@ func Parser.parseDeclaration
+//@   loop * candidate 0 <= offset && offset <= p.l.r.pos
 //@   loop * candidate len(p.state) == old(len(p.state))
 //@   loop * candidate p.prevEnd == old(p.prevEnd)
 //@   loop * candidate forall(i, 0, len(p.state), p.state[i] == old(p.state[i]))
@@ -380,7 +382,8 @@ package css
 //@   ensures[F,C08] @stack-prefix: forall(i, 0, min(len(p.state), old(len(p.state))), p.state[i] == old(p.state[i]))
 //@   ensures[F,C08] @eof-closed: result0 == ErrorGrammar && p.err == "" ==> len(p.state) == 1
 //@ func Parser.Err
-//@   requires[S] p != nil && p.l != nil && lexInv(p.l)
+//@   requires[S] p != nil && p.l != nil && lexInv(p.l) && 0 <= p.errPos && p.errPos <= len(p.l.r.buf)-1
+//@   ensures[F,C15] @grammar-error: len(p.err) != 0 ==> result != nil
 //@ func Parser.Offset
 //@   requires[S] p != nil && p.l != nil && p.l.r != nil
 //@ func NewParser
